@@ -62,7 +62,7 @@ func Replay(path string) int {
 	for i, s := range wx.PathStrings(sc, rf.Ops) {
 		fmt.Printf("  %2d. %s\n", i+1, s)
 	}
-	_, f, at := wx.ReplayFull(sc, rf.Ops)
+	_, f, at := wx.ReplayFull(sc, rf.Ops, Accepts[rf.Property])
 	if f == nil {
 		fmt.Println("no failure: the history passes all oracles")
 		return 0
